@@ -1012,20 +1012,21 @@ class Exec:
                 t = truth(self.eval(c, pc, e2))
                 keep = z_and(keep, t)
             if keep is True:
-                out.append(make(e2))
+                out.append(make(e2, pc))
             elif keep is not False:
-                out.append(Guarded(keep, make(e2)))  # element present only under a symbolic condition
+                # element present only under a symbolic condition; obligations raised while evaluating it hold under that condition only
+                out.append(Guarded(keep, make(e2, pc + [keep])))
         return out
 
     def ex_ListComp(self, n, pc, env):
-        return self._comp(n, pc, env, lambda e2: self.eval(n.elt, pc, e2))
+        return self._comp(n, pc, env, lambda e2, pcx: self.eval(n.elt, pcx, e2))
 
     def ex_SetComp(self, n, pc, env):
         if len(n.generators) == 1 and not n.generators[0].ifs:
             it = self.eval(n.generators[0].iter, pc, env)
             if isinstance(it, SymList):
                 return self._image_set(n, it, pc, env)
-        return set(self._comp(n, pc, env, lambda e2: self.eval(n.elt, pc, e2)))
+        return set(self._comp(n, pc, env, lambda e2, pcx: self.eval(n.elt, pcx, e2)))
 
     def _image_set(self, n, lst: "SymList", pc, env):
         """{f(x) for x in L} for a symbolic list L: the set S with  (forall i in range: f(L[i]) in S)  and
@@ -1043,10 +1044,10 @@ class Exec:
         return res
 
     def ex_GeneratorExp(self, n, pc, env):
-        return self._comp(n, pc, env, lambda e2: self.eval(n.elt, pc, e2))
+        return self._comp(n, pc, env, lambda e2, pcx: self.eval(n.elt, pcx, e2))
 
     def ex_DictComp(self, n, pc, env):
-        return dict(self._comp(n, pc, env, lambda e2: (self.eval(n.key, pc, e2), self.eval(n.value, pc, e2))))
+        return dict(self._comp(n, pc, env, lambda e2, pcx: (self.eval(n.key, pcx, e2), self.eval(n.value, pcx, e2))))
 
     def ex_Call(self, n, pc, env):
         f = self.eval(n.func, pc, env)
